@@ -130,6 +130,64 @@ def ninja_hash(path, bdir):
     return norm_ninja(open(path, 'rb').read(), bdir)
 
 
+def ninja_problems(path):
+    """well-formedness of a generated build.ninja, judged with the harness-side Ninja reader
+    (harness/ninja_py.py): it parses, it has exactly one header, no rule is declared twice, no path is the output
+    of two build statements, it ends with a default statement."""
+    import re
+    sys.path.insert(0, os.path.join(os.path.dirname(os.path.abspath(__file__)), '..'))
+    import ninja_py
+    try:
+        text = open(path, encoding='utf-8').read()
+    except FileNotFoundError:
+        return []
+    except Exception as e:
+        return ['not UTF-8 text: ' + type(e).__name__]
+    out = []
+    n = len(re.findall(r'^# This is the build file for project ', text, re.M))
+    if n != 1:
+        out.append('%d header lines' % n)
+    rules = re.findall(r'^rule (\S+)', text, re.M)
+    dup = sorted({r for r in rules if rules.count(r) > 1})
+    if dup:
+        out.append('rule declared more than once: ' + ', '.join(dup[:5]))
+    if len(re.findall(r'^ninja_required_version\b', text, re.M)) != 1:
+        out.append('ninja_required_version is not set exactly once')
+    try:
+        m = ninja_py.Manifest(text)
+        seen, twice = set(), []
+        for b in m.builds:
+            for o in b.all_outs():
+                if o in seen:
+                    twice.append(o)
+                seen.add(o)
+        if twice:
+            out.append('output of more than one build statement: ' + ', '.join(sorted(set(twice))[:5]))
+        for b in m.builds:
+            if b.rule not in m.rules:
+                out.append('build statement uses undeclared rule ' + b.rule)
+                break
+        if not m.defaults:
+            out.append('no default statement')
+    except Exception as e:
+        out.append('does not parse: %s' % type(e).__name__)
+    return out
+
+
+def other_problems(B):
+    """compile_commands.json written by the run: empty (no compiler) or JSON"""
+    out = []
+    p = os.path.join(B, 'compile_commands.json')
+    if os.path.exists(p):
+        data = open(p, 'rb').read()
+        if data.strip():
+            try:
+                json.loads(data.decode('utf-8'))
+            except Exception as e:
+                out.append('compile_commands.json is not JSON: ' + type(e).__name__)
+    return out
+
+
 def classify(d, req):
     keys, table = req['keys'], req['values']
     B = d['dir']
@@ -166,7 +224,8 @@ def classify(d, req):
     except Exception:
         rep = None
     # files in meson-private / meson-info that no loader above knows (reported, not judged)
-    return {'state': ' '.join(out), 'intro_values': rep, 'ninja': ninja_hash(os.path.join(B, 'build.ninja'), B)}
+    return {'state': ' '.join(out), 'intro_values': rep, 'ninja': ninja_hash(os.path.join(B, 'build.ninja'), B),
+            'problems': (ninja_problems(os.path.join(B, 'build.ninja')) + other_problems(B)) if req.get('wellformed') else []}
 
 
 # ---------------------------------------------------------------- oracle
@@ -188,6 +247,12 @@ def oracle(sc):
         missing = [c + '=' + toks[c] for c in required if toks[c][0] == 'A']
         if bad or missing:
             fails.append({'kind': 'state-file-unreadable-after-followup', 'ident': ident, 'j': p['j'], 'files': bad + missing})
+        # (2') what the recovery run wrote is well-formed, and build.ninja is what an uninterrupted run writes
+        if p.get('problems'):
+            fails.append({'kind': 'state-file-malformed-after-followup', 'ident': ident, 'j': p['j'], 'problems': p['problems']})
+        elif p.get('ninja') and sc.get('ninja_refs') and p['ninja'] not in sc['ninja_refs']:
+            fails.append({'kind': 'build.ninja-differs-from-uninterrupted-run', 'ident': ident, 'j': p['j'],
+                          'sha1_after_recovery': p['ninja'], 'sha1_of_uninterrupted_runs': sc['ninja_refs']})
         vals = p.get('values')
         if vals is None:
             fails.append({'kind': 'no-values-reported', 'ident': ident, 'j': p['j']})
